@@ -213,12 +213,12 @@ theorem hasMarker_render (n : SNum) (hok : n.ok) : hasMarker n.render = n.isFloa
       cases u <;> simp [hasMarker, Gen.Json.fmtMarkers]
   simp only [SNum.render, hasMarker_append, hsign, hint, hfrac, hexp, Bool.false_or, SNum.isFloat]
 
-theorem dblEq_eq {ops : FloatOps} (hl : LibcOk ops) (p : Nat) (d : UInt64)
+theorem dblEq_eq {ops : FloatOps} (hl : LibcOk ops) (p : Nat) (d : UInt64) (hlo : Gen.Json.fmtPrecLo ≤ p) (hhi : p ≤ Gen.Json.fmtPrecHi)
     (h : dblEq (ops.strtod (ops.printfG p d)) d = true) : ops.strtod (ops.printfG p d) = d := by
   simp only [dblEq, Bool.and_eq_true, Bool.or_eq_true, beq_iff_eq] at h
   rcases h.2 with h' | h'
   · exact h'
-  · exact hl.zeroSign p d h'.2 h'.1
+  · exact hl.zeroSign p d hlo hhi h'.2 h'.1
 
 /-- the precision loop returns the text of one of the precisions tried, and that text reads back as `d` -/
 theorem fmtSearch_spec {ops : FloatOps} (hl : LibcOk ops) (d : UInt64) (hd : isFiniteBits d = true) :
@@ -237,7 +237,7 @@ theorem fmtSearch_spec {ops : FloatOps} (hl : LibcOk ops) (d : UInt64) (hd : isF
     simp only [fmtSearch]
     split
     · rename_i he
-      exact ⟨⟨p, hp, by omega, rfl⟩, dblEq_eq hl p d he⟩
+      exact ⟨⟨p, hp, by omega, rfl⟩, dblEq_eq hl p d hp (by omega) he⟩
     · exact ih (p + 1) (by omega) (by omega)
 
 /-- **`_formatDouble` round-trips** (the repo's own logic, from the four libc facts): for every finite double the output is a JSON
@@ -574,7 +574,7 @@ theorem libcOk_toy : LibcOk toyOps where
       exact ⟨by simp, by simp [isDigit]⟩
     · simp [SNum.render, SNum.renderFrac, SNum.renderExp, toyOps]
   exactHi := fun d _ => toy_read d _
-  zeroSign := fun p d _ _ => toy_read d p
+  zeroSign := fun p d _ _ _ _ => toy_read d p
   dotZero := by
     intro n hok hf
     have hfe : n.frac = none ∧ n.exp = none := by simpa [SNum.isFloat, Bool.or_eq_false_iff] using hf
